@@ -21,6 +21,10 @@ Definition leak (p : prim) (w : pyval) : bool :=
 Definition seq_prim (p : prim) (ell : bool) : bool :=
   match p with TList | TSet | TFrozen => true | TTuple => ell | _ => false end.
 
+(* Tuple[T1, ..., Tn] (fixed length): origin tuple, no ellipsis *)
+Definition tuple_origin (origin : option ty) (ell : bool) : bool :=
+  match origin with Some (TPrim TTuple) => negb ell | _ => false end.
+
 Fixpoint stable (t : ty) : bool :=
   match t with
   | TAny | TPrim _ | TData _ => true
@@ -29,6 +33,7 @@ Fixpoint stable (t : ty) : bool :=
   | TLogic CAnd _ => false
   | TRule origin args ell vals ct _ _ =>
       checking_vals vals && (match ct with None => true | Some _ => false end) &&
+      if tuple_origin origin ell && negb (match args with [] => true | _ => false end) then forallb stable args else
       match args with
       | [] => match origin with Some ot => stable ot | None => true end
       | [a] => match origin with Some (TPrim p) => seq_prim p ell && stable a | _ => false end
@@ -47,6 +52,18 @@ Fixpoint typed (t : ty) (w : pyval) {struct t} : bool :=
   | TLogic COr args | TLogic CXor args => existsb (fun a => exact_type a w) args
   | TLogic _ _ => true
   | TRule origin args ell _ _ _ _ =>
+      if tuple_origin origin ell && negb (match args with [] => true | _ => false end) then
+        match w with
+        | PTuple xs =>
+            (fix tl (ts : list ty) (ys : list pyval) {struct ts} : bool :=
+               match ts, ys with
+               | [], _ => true
+               | a :: ts', y :: ys' => typed a y && tl ts' ys'
+               | _ :: _, [] => false
+               end) args xs
+        | _ => false
+        end
+      else
       match args with
       | [] => match origin with Some ot => typed ot w | None => true end
       | [a] => match origin with
@@ -70,7 +87,19 @@ Fixpoint ints_exact (t : ty) (w : pyval) {struct t} : bool :=
   | TPrim p => negb (leak p w)
   | TLogic COr args => negb (is_bool w) || existsb (fun a => exact_type a w) args
   | TLogic CXor args => existsb (fun a => exact_type a w) args
-  | TRule origin args _ _ _ _ _ =>
+  | TRule origin args ell _ _ _ _ =>
+      if tuple_origin origin ell && negb (match args with [] => true | _ => false end) then
+        match w with
+        | PTuple xs =>
+            (fix tl (ts : list ty) (ys : list pyval) {struct ts} : bool :=
+               match ts, ys with
+               | [], _ => true
+               | a :: ts', y :: ys' => ints_exact a y && tl ts' ys'
+               | _ :: _, [] => true
+               end) args xs
+        | _ => true
+        end
+      else
       match args with
       | [] => match origin with Some ot => ints_exact ot w | None => true end
       | [a] => match items_of w with Some xs => forallb (ints_exact a) xs | None => true end
